@@ -620,6 +620,22 @@ def _has_impure_call(e: ast.AST) -> bool:
     return False
 
 
+SCALAR_PURE = {"len", "min", "max", "abs", "int", "float", "complex", "str", "round", "isinstance", "bool", "sum", "any", "all", "ord", "chr", "tuple", "frozenset", "range", "getattr", "hasattr", "type", "repr", "divmod", "pow", "ceil", "floor", "log2", "cast"}
+
+
+def _duplicable(e: ast.AST) -> bool:
+    """may the expression be evaluated several times / at several places without anyone noticing?
+    (no fresh mutable object whose identity could matter, no one-shot iterator, no unknown call)"""
+    for n in ast.walk(e):
+        if isinstance(n, ast.Call):
+            d = dotted(n.func) or ""
+            if d.split(".")[-1] not in SCALAR_PURE or (isinstance(n.func, ast.Attribute) and d.split(".")[-1] not in ("log2", "ceil", "floor")):
+                return False
+        if isinstance(n, (ast.List, ast.Dict, ast.Set, ast.ListComp, ast.SetComp, ast.DictComp, ast.GeneratorExp, ast.Lambda, ast.Yield, ast.YieldFrom, ast.Await, ast.NamedExpr, ast.Starred)):
+            return False
+    return True
+
+
 def _call_free_or_pure(e: ast.AST) -> bool:
     for n in ast.walk(e):
         if isinstance(n, ast.Call):
@@ -896,6 +912,8 @@ class _IterIdioms(ast.NodeTransformer):
         self.n = 0
 
     def _items(self, target, it, scope_nodes):
+        if isinstance(it, (ast.Name, ast.Attribute)) and isinstance(target, ast.Name):
+            it = ast.Call(func=ast.Attribute(value=it, attr="keys", ctx=ast.Load()), args=[], keywords=[])
         if isinstance(it, ast.Call) and isinstance(it.func, ast.Attribute) and it.func.attr == "keys" and not it.args and isinstance(target, ast.Name) and isinstance(it.func.value, (ast.Name, ast.Attribute)):
             d = it.func.value
             dd = ast.dump(d)
@@ -961,7 +979,8 @@ class _IterIdioms(ast.NodeTransformer):
             return node
         r = self._items(node.target, node.iter, node.body)
         if r is not None:
-            mutated = any(isinstance(n, ast.Subscript) and isinstance(n.ctx, (ast.Store, ast.Del)) and ast.dump(n.value) == ast.dump(node.iter.func.value) for b in node.body for n in ast.walk(b))
+            dsrc = node.iter.func.value if isinstance(node.iter, ast.Call) else node.iter
+            mutated = any(isinstance(n, ast.Subscript) and isinstance(n.ctx, (ast.Store, ast.Del)) and ast.dump(n.value) == ast.dump(dsrc) for b in node.body for n in ast.walk(b))
             if not mutated:
                 node.target, node.iter, R = r
                 node.body = [R.visit(b) for b in node.body]
@@ -1413,8 +1432,12 @@ def _inline_temporaries(fn: ast.FunctionDef) -> None:
             for idx, s in enumerate(stmts):
                 if isinstance(s, ast.Assign) and len(s.targets) == 1 and isinstance(s.targets[0], ast.Name):
                     name = s.targets[0].id
-                    if name in params or _has_impure_call(s.value) or name in closure_names:
+                    if name in params or name in closure_names:
                         continue
+                    if _has_impure_call(s.value):
+                        nxt = stmts[idx + 1] if idx + 1 < len(stmts) else None
+                        if not (nxt is not None and _first_evaluated_is(nxt, name) and sum(1 for n in ast.walk(fn) if isinstance(n, ast.Name) and n.id == name and isinstance(n.ctx, ast.Load)) == 1 and len(binds.get(name, [])) >= 1 and following_ok(name, following)):
+                            continue
                     if len(binds.get(name, [])) != 1:
                         # several bindings: fine when this one cannot be seen outside the statements that follow it in
                         # its own block (disjoint branches each binding and using their own copy)
@@ -1436,9 +1459,9 @@ def _inline_temporaries(fn: ast.FunctionDef) -> None:
                         continue  # used outside the block that follows the definition
                     if any(isinstance(n, ast.Name) and n.id == name and isinstance(n.ctx, (ast.Store, ast.Del)) for r in rest for n in ast.walk(r)):
                         continue
-                    if len(uses) > 1 and not _call_free_or_pure(s.value):
+                    if len(uses) > 1 and not _duplicable(s.value):
                         continue
-                    if len(uses) == 1 and _use_in_repeated_region(uses[0], rest) and not _call_free_or_pure(s.value):
+                    if len(uses) == 1 and _use_in_repeated_region(uses[0], rest) and not _duplicable(s.value):
                         continue
                     if _mutating_use(name, rest):
                         continue
@@ -1461,6 +1484,48 @@ def _inline_temporaries(fn: ast.FunctionDef) -> None:
         changed = try_block(fn.body, False)
         if not changed:
             break
+
+
+def _first_evaluated_is(stmt: ast.stmt, name: str) -> bool:
+    """is a load of ``name`` the first thing with a possible effect that ``stmt`` evaluates?"""
+    if not isinstance(stmt, (ast.Return, ast.Assign, ast.Expr)) or stmt.value is None:
+        return False
+    if isinstance(stmt, ast.Assign) and not all(isinstance(t, ast.Name) for t in stmt.targets):
+        return False
+
+    def first(e: ast.AST) -> Optional[ast.AST]:
+        if isinstance(e, ast.Name):
+            return e
+        if isinstance(e, ast.Constant):
+            return None
+        if isinstance(e, ast.Call):
+            # the callee expression, then the arguments in order
+            if isinstance(e.func, ast.Attribute):
+                r = first(e.func.value)
+                if r is not None:
+                    return r
+            elif not isinstance(e.func, ast.Name):
+                return e
+            for a in e.args:
+                r = first(a.value if isinstance(a, ast.Starred) else a)
+                if r is not None:
+                    return r
+            for k in e.keywords:
+                r = first(k.value)
+                if r is not None:
+                    return r
+            return e
+        if isinstance(e, ast.Attribute):
+            return first(e.value)
+        for c in ast.iter_child_nodes(e):
+            if isinstance(c, ast.expr):
+                r = first(c)
+                if r is not None:
+                    return r
+        return None
+
+    f = first(stmt.value)
+    return isinstance(f, ast.Name) and f.id == name
 
 
 def _mutated_later(name: str, rest: Sequence[ast.stmt]) -> bool:
@@ -1537,7 +1602,45 @@ def _coalesce_copies(fn: ast.FunctionDef) -> None:
 
         done = scan(fn.body)
         if not done:
+            done = _coalesce_roundtrip(fn, params)
+        if not done:
             break
+
+
+def _coalesce_roundtrip(fn: ast.FunctionDef, params: Set[str]) -> bool:
+    """``a = b; <statements using a, never b>; b = a`` : a is b all along"""
+    def scan(stmts: List[ast.stmt]) -> bool:
+        for i, s in enumerate(stmts):
+            if isinstance(s, ast.Assign) and len(s.targets) == 1 and isinstance(s.targets[0], ast.Name) and isinstance(s.value, ast.Name) and s.targets[0].id != s.value.id:
+                a, b = s.targets[0].id, s.value.id
+                if a in params:
+                    continue
+                for j in range(i + 1, len(stmts)):
+                    t = stmts[j]
+                    if isinstance(t, ast.Assign) and len(t.targets) == 1 and isinstance(t.targets[0], ast.Name) and t.targets[0].id == b and isinstance(t.value, ast.Name) and t.value.id == a:
+                        mid = stmts[i + 1:j]
+                        if any(isinstance(n, ast.Name) and n.id == b for m in mid for n in ast.walk(m)):
+                            break
+                        outside = [n for n in ast.walk(fn) if isinstance(n, ast.Name) and n.id == a]
+                        inside = [n for m in stmts[i:j + 1] for n in ast.walk(m) if isinstance(n, ast.Name) and n.id == a]
+                        if len(outside) != len(inside):
+                            break
+                        for m in mid:
+                            for n in ast.walk(m):
+                                if isinstance(n, ast.Name) and n.id == a:
+                                    n.id = b
+                        del stmts[j]
+                        del stmts[i]
+                        return True
+                    if any(isinstance(n, ast.Name) and n.id == b and isinstance(n.ctx, ast.Store) for n in ast.walk(t)):
+                        break
+            for field in ("body", "orelse", "finalbody"):
+                v = getattr(s, field, None)
+                if isinstance(v, list) and v and isinstance(v[0], ast.stmt) and scan(v):
+                    return True
+        return False
+
+    return scan(fn.body)
 
 
 def _is_comp_var(name: str) -> bool:
@@ -1596,11 +1699,148 @@ def _alpha_rename(fn: ast.FunctionDef) -> None:
             n.name = mapping[n.name]
 
 
-def canonical_function(fn: ast.FunctionDef) -> ast.FunctionDef:
-    f = copy.deepcopy(fn)
+def _drop_tail_return_none(stmts: List[ast.stmt]) -> List[ast.stmt]:
+    if not stmts:
+        return stmts
+    last = stmts[-1]
+    if isinstance(last, ast.Return) and (last.value is None or (isinstance(last.value, ast.Constant) and last.value.value is None)):
+        return _drop_tail_return_none(stmts[:-1])
+    if isinstance(last, ast.If):
+        last.body = _drop_tail_return_none(list(last.body)) or [ast.Pass()]
+        last.orelse = _drop_tail_return_none(list(last.orelse))
+        if len(last.body) == 1 and isinstance(last.body[0], ast.Pass) and last.orelse:
+            last.test, last.body, last.orelse = _negate(last.test), last.orelse, []
+        if len(last.body) == 1 and isinstance(last.body[0], ast.Pass) and not last.orelse and _call_free_or_pure(last.test):
+            return _drop_tail_return_none(stmts[:-1])
+    if isinstance(last, ast.While) and isinstance(last.test, ast.Constant) and last.test.value is True and not last.orelse:
+        # falling out of a trailing `while True` loop ends the function: a bare return inside it is a break
+        class T(ast.NodeTransformer):
+            def visit_Return(self, node):
+                if node.value is None or (isinstance(node.value, ast.Constant) and node.value.value is None):
+                    return ast.copy_location(ast.Break(), node)
+                return node
+
+            def visit_FunctionDef(self, node):
+                return node
+
+            def visit_For(self, node):
+                return node  # a break there would leave the inner loop only
+
+            visit_While = visit_For
+
+        last.body = [T().visit(b) for b in last.body]
+    return stmts
+
+
+class _LoopIdioms(ast.NodeTransformer):
+    """``while (x := e): B``  ->  ``while True: x = e; if x: B else: break``"""
+
+    def visit_While(self, node):
+        self.generic_visit(node)
+        if isinstance(node.test, ast.NamedExpr) and isinstance(node.test.target, ast.Name) and not node.orelse:
+            x = node.test.target.id
+            body = [ast.Assign(targets=[ast.Name(id=x, ctx=ast.Store())], value=node.test.value), ast.If(test=ast.Name(id=x, ctx=ast.Load()), body=node.body, orelse=[ast.Break()])]
+            return ast.copy_location(ast.While(test=ast.Constant(value=True), body=body, orelse=[]), node)
+        return node
+
+
+def _local_lists(fn: ast.FunctionDef) -> Set[str]:
+    out: Set[str] = set()
+    for n in ast.walk(fn):
+        if isinstance(n, ast.Assign) and len(n.targets) == 1 and isinstance(n.targets[0], ast.Name) and (isinstance(n.value, (ast.List, ast.ListComp)) or (isinstance(n.value, ast.Call) and dotted(n.value.func) == "list")):
+            out.add(n.targets[0].id)
+    return out
+
+
+def _augadd_to_extend(fn: ast.FunctionDef) -> None:
+    lists = _local_lists(fn)
+
+    class T(ast.NodeTransformer):
+        def visit_AugAssign(self, node):
+            if isinstance(node.op, ast.Add) and isinstance(node.target, ast.Name) and node.target.id in lists:
+                call = ast.Call(func=ast.Attribute(value=ast.Name(id=node.target.id, ctx=ast.Load()), attr="extend", ctx=ast.Load()), args=[node.value], keywords=[])
+                return ast.copy_location(ast.Expr(value=call), node)
+            return node
+
+    T().visit(fn)
+
+
+def _sink_assignments(stmts: List[ast.stmt]) -> List[ast.stmt]:
+    """move ``x = <effect-free expr>`` down to just before the first statement that mentions x (into a branch if
+    only one branch of the next if mentions it), past statements that neither mention x nor rebind what the
+    expression reads"""
+    changed = True
+    rounds = 0
+    while changed and rounds < 20:
+        changed = False
+        rounds += 1
+        for i, s in enumerate(stmts):
+            if not (isinstance(s, ast.Assign) and len(s.targets) == 1 and isinstance(s.targets[0], ast.Name)) or _has_impure_call(s.value):
+                continue
+            x = s.targets[0].id
+            free = {n.id for n in ast.walk(s.value) if isinstance(n, ast.Name)}
+            j = i + 1
+            while j < len(stmts):
+                t = stmts[j]
+                names = {n.id for n in ast.walk(t) if isinstance(n, ast.Name)}
+                stores = {n.id for n in ast.walk(t) if isinstance(n, ast.Name) and isinstance(n.ctx, (ast.Store, ast.Del))}
+                if x in names or (stores & free) or isinstance(t, (ast.FunctionDef, ast.AsyncFunctionDef, ast.ClassDef)):
+                    break
+                j += 1
+            if j >= len(stmts):
+                continue
+            t = stmts[j]
+            moved = False
+            if isinstance(t, ast.If) and x not in {n.id for n in ast.walk(t.test) if isinstance(n, ast.Name)}:
+                in_body = any(isinstance(n, ast.Name) and n.id == x for b in t.body for n in ast.walk(b))
+                in_else = any(isinstance(n, ast.Name) and n.id == x for b in t.orelse for n in ast.walk(b))
+                after = any(isinstance(n, ast.Name) and n.id == x for b in stmts[j + 1:] for n in ast.walk(b))
+                test_stores = {n.id for n in ast.walk(t.test) if isinstance(n, ast.Name) and isinstance(n.ctx, ast.Store)}
+                if not after and in_body != in_else and not (test_stores & free):
+                    del stmts[i]
+                    (t.body if in_body else t.orelse).insert(0, s)
+                    moved = True
+            if not moved and j > i + 1:
+                del stmts[i]
+                stmts.insert(j - 1, s)
+                moved = True
+            if moved:
+                changed = True
+                break
+    for s in stmts:
+        for field in ("body", "orelse", "finalbody"):
+            v = getattr(s, field, None)
+            if isinstance(v, list) and v and isinstance(v[0], ast.stmt) and not isinstance(s, (ast.FunctionDef, ast.AsyncFunctionDef, ast.ClassDef)):
+                setattr(s, field, _sink_assignments(v))
+        if isinstance(s, ast.Try):
+            for h in s.handlers:
+                h.body = _sink_assignments(h.body)
+    return stmts
+
+
+def canonical_function(fn: ast.FunctionDef, _nested: bool = False) -> ast.FunctionDef:
+    f = fn if _nested else copy.deepcopy(fn)
     f.decorator_list = list(f.decorator_list)
+    # nested functions first (they are closed units; the outer passes treat them as opaque statements)
+    for i, st in enumerate(list(ast.walk(f))):
+        pass
+    def canon_nested(stmts: List[ast.stmt]):
+        for k, st in enumerate(stmts):
+            if isinstance(st, (ast.FunctionDef, ast.AsyncFunctionDef)):
+                stmts[k] = canonical_function(st, _nested=True)
+            else:
+                for field in ("body", "orelse", "finalbody"):
+                    v = getattr(st, field, None)
+                    if isinstance(v, list) and v and isinstance(v[0], ast.stmt):
+                        canon_nested(v)
+                if isinstance(st, ast.Try):
+                    for h in st.handlers:
+                        canon_nested(h.body)
+    canon_nested(f.body)
     f = _Strip().visit(f)
+    f = _LoopIdioms().visit(f)
     ast.fix_missing_locations(f)
+    _augadd_to_extend(f)
     f = _IterIdioms().visit(f)
     for _round in range(3):
         f.body = _split_tuple_assign(list(f.body))
@@ -1608,6 +1848,8 @@ def canonical_function(fn: ast.FunctionDef) -> ast.FunctionDef:
         f.body = _split_multi_assign_branches(f.body)
         f.body = _fuse_list_builders(f.body)
         f.body = _loops_to_comprehensions(f.body)
+        f.body = _sink_assignments(list(f.body))
+        f.body = _drop_tail_return_none(list(f.body)) or [ast.Pass()]
         f.body = _default_then_override(f.body)
         f.body = _prealloc_fill(f.body)
         f.body = _push_return_down(f.body)
@@ -1621,10 +1863,9 @@ def canonical_function(fn: ast.FunctionDef) -> ast.FunctionDef:
     f.body = _normalise_blocks(list(f.body), False) or [ast.Pass()]
     f = _ifexp_polarity(f)
     f = _SortAdditive().visit(f)
-    # a trailing `return None`
-    if f.body and isinstance(f.body[-1], ast.Return) and (f.body[-1].value is None or (isinstance(f.body[-1].value, ast.Constant) and f.body[-1].value.value is None)) and len(f.body) > 1:
-        f.body = f.body[:-1]
-    _alpha_rename(f)
+    f.body = _drop_tail_return_none(list(f.body)) or [ast.Pass()]
+    if not _nested:
+        _alpha_rename(f)
     ast.fix_missing_locations(f)
     return f
 
